@@ -1,0 +1,6 @@
+//go:build !verif
+
+package sstables
+
+// verifOnWriterOpen is a no-op unless built with the "verif" tag (see verif_hooks.go).
+func verifOnWriterOpen(_ *SSTableStreamWriter) {}
